@@ -219,6 +219,31 @@ def run(ctx):
                     reg_all = True
     okf = okf and reg_all
     ctx.check(okf, 'R5', 'wait_any_for registers the simcall on each activity and finishes one that is already over', where(waf), '', key='R5|wait_any_for|register loop')
+    # finish() answers the issuer: nothing may be registered for it afterwards (a later activity of the set would keep a stale simcall of an actor that is
+    # no longer waiting on it)
+    late = None
+    for p in v.paths(max_visits=2):
+        evs = v.path_events(p)
+        if any(e.kind == 'branch' and e.atom[0] == 'truthy' and e.atom[1][0] == 'call' and e.atom[1][1].startswith('MC_') and e.pol for e in evs):
+            continue
+        fi = [i for i, e in enumerate(evs) if e.kind == 'call' and e.q == AI + '::finish']
+        if fi:
+            after = [e for e in evs[fi[0] + 1:] if e.kind == 'call' and e.q in (AI + '::register_simcall', AI + '::finish')]
+            late = bool(after) if late is None else (late or bool(after))
+    ctx.check(late is False, 'R5', 'wait_any_for stops at the first activity that is already over', where(waf), 'after finish() the loop registers or finishes another activity' if late else '', key='R5|wait_any_for|stops after finish')
+    # sibling agreement: both timeout callbacks forget the timer (timeout_cb_ = nullptr) before anything else, as unregister_first_simcall and the cleanup of a
+    # dying actor call remove() on a non-null timeout_cb_
+    for owner_q, lam in sorted(lambdas.items()):
+        if lam is None:
+            continue
+        lv_ = A.view(lam)
+        first = None
+        for eid in lv_.blocks[lam['entry']].get('e', []) or [e_ for b_ in lv_.succs(lam['entry']) for e_ in lv_.blocks[b_].get('e', [])]:
+            for e in lv_.events_of(eid):
+                if first is None and e.kind in ('assign', 'call'):
+                    first = e
+        okc = first is not None and first.kind == 'assign' and first.lhs[0] == 'field' and first.lhs[2].endswith('::timeout_cb_') and first.rhs == ('null',)
+        ctx.check(okc, 'R5', 'timeout callback of %s: timeout_cb_ = nullptr first' % owner_q.rsplit('::', 1)[-1], where(lam), 'first effect: %r' % (first,), key='R5|%s callback|timer forgotten first' % owner_q.rsplit('::', 1)[-1])
     aswf = P.fn('simgrid::s4u::ActivitySet::wait_any_for')
     v = A.view(aswf)
     okm = False
